@@ -184,3 +184,140 @@ Proof.
   - inversion HF; subst. unfold good; cbn; auto.
 Qed.
 End Invariance.
+
+(* ================================================================= B. invariants of the machine over Z *)
+Local Open Scope Z_scope.
+
+(* the comment "data contains a sequence of type 1 9 2 8 3 7 ...": each element lies strictly between the two before
+   it.  [nest hi d]: d (head = back of the vector) is such a sequence, hi tells whether the back is a high (even
+   length) or a low (odd length) element *)
+Fixpoint nest (hi : bool) (d : list Z) : Prop :=
+  match d with
+  | [] => False
+  | c :: t =>
+    match t with
+    | [] => hi = false
+    | b :: t' =>
+      nest (negb hi) t /\ (if hi then b < c else c < b) /\
+      match t' with [] => True | a :: _ => if hi then c < a else a < c end
+    end
+  end.
+
+Fixpoint front (d : list Z) : Z :=
+  match d with [] => 0 | [a] => a | _ :: t => front t end.
+Lemma front_one a : front [a] = a. Proof. reflexivity. Qed.
+Lemma front_cons2 c b t : front (c :: b :: t) = front (b :: t). Proof. reflexivity. Qed.
+
+Lemma nest_front hi d : nest hi d -> Forall (fun y => front d <= y) d.
+Proof.
+  revert hi. induction d as [|c t IH]; intros hi H; [destruct H|].
+  destruct t as [|b t'].
+  - constructor; [cbn; lia|constructor].
+  - cbn [nest] in H. destruct H as (Hn & H1 & H2).
+    specialize (IH _ Hn). rewrite front_cons2. constructor; [|exact IH].
+    inversion IH as [|? ? Hb Ht]; subst. destruct t' as [|a t''].
+    + cbn [nest] in Hn. cbn in *. destruct hi; [lia|discriminate].
+    + inversion Ht; subst. destruct hi; lia.
+Qed.
+
+Definition strict (p : Z * Z) : Prop := fst p < snd p.
+
+Definition hd_lt (d : list Z) (v : Z) : Prop := match d with c :: _ => c < v | [] => False end.
+Definition hd_gt (d : list Z) (v : Z) : Prop := match d with c :: _ => v < c | [] => False end.
+
+Definition shape (l : label) (d : list Z) (v : Z) : Prop :=
+  match l with
+  | L1 => match d with [x] => True | _ => False end
+  | L1down => match d with [x] => v <= x | _ => False end
+  | L12 => match d with [y; x] => x < y | _ => False end
+  | L12down => match d with [y; x] => x < y /\ v < y | _ => False end
+  | L132 => nest false d /\ (3 <= length d)%nat
+  | L132up => nest false d /\ (3 <= length d)%nat /\ hd_lt d v
+  | L312 => nest true d /\ (4 <= length d)%nat
+  | L312down => nest true d /\ (4 <= length d)%nat /\ hd_gt d v
+  | Lup => nest false d /\ hd_lt d v
+  | Ldown => nest true d /\ hd_gt d v
+  | Lendup => nest true d
+  | Lenddown => nest false d
+  | Linf => match d with [x] => True | _ => False end
+  end.
+
+Definition weight (l : label) : nat :=
+  match l with
+  | Linf => 0 | Lenddown => 1 | Lendup => 2
+  | L1 | L12 | L132 | L312 => 3
+  | L1down | L12down | L132up | L312down => 5
+  | Lup | Ldown => 6
+  end.
+Definition endlab (l : label) : bool := match l with Lendup | Lenddown | Linf => true | _ => false end.
+Definition potential (s : state Z) : nat := 4 * length (rest s) + length (data s) + weight (lab s).
+
+Ltac crush :=
+  repeat match goal with
+  | H : _ /\ _ |- _ => destruct H
+  | H : True |- _ => clear H
+  | H : true = false |- _ => discriminate H
+  | H : False |- _ => destruct H
+  end.
+Ltac cmps :=
+  unfold le, ge, gt;
+  repeat match goal with |- context [(?a <? ?b)] => destruct (Z.ltb_spec a b) end; cbn [negb].
+Ltac fin_fold :=
+  unfold potential; cbn [endlab shape length hd_lt hd_gt potential weight lab data cur rest outp erase skipn set_fr0 set_fr1 set_bk1 set_nth Nat.sub];
+  repeat split; auto; try lia; try discriminate; try (constructor; [cbn; lia|assumption]).
+Ltac done_shape :=
+  first [ solve [fin_fold]
+        | cbn [nest negb hd_lt hd_gt] in *; crush;
+          unfold potential; cbn [endlab shape nest negb length hd_lt hd_gt potential weight lab data cur rest outp erase skipn set_fr0 set_fr1 set_bk1 set_nth Nat.sub];
+          repeat split; auto; try lia; try discriminate; try (constructor; [cbn; lia|assumption]) ].
+
+Lemma step_shape (s : state Z) :
+  shape (lab s) (data s) (cur s) -> Forall strict (outp s) -> (endlab (lab s) = true -> rest s = []) ->
+  match step Z Z.ltb s with
+  | Next s' => shape (lab s') (data s') (cur s') /\ Forall strict (outp s') /\ (potential s' < potential s)%nat /\
+               (endlab (lab s') = true -> rest s' = [])
+  | Done ps m => Forall strict ps /\ data s = [m] /\ rest s = []
+  | Err => False
+  end.
+Proof.
+  destruct s as [l d v r o]. cbn [lab data cur rest outp]. intros Hs Ho He.
+  destruct l; cbn [shape endlab] in Hs, He; try (specialize (He eq_refl); subst r).
+  - (* L1 *) destruct d as [|x [|? ?]]; crush. unfold step, goto; cbn.
+    destruct r as [|y r]; [done_shape|]. cmps; done_shape.
+  - (* L1down *) destruct d as [|x [|? ?]]; crush. unfold step, goto; cbn. done_shape.
+  - (* L12 *) destruct d as [|y [|x [|? ?]]]; crush. unfold step, goto; cbn.
+    destruct r as [|z r]; [done_shape|]. cmps; done_shape.
+  - (* L12down *) destruct d as [|y [|x [|? ?]]]; crush. unfold step, goto; cbn. cmps; done_shape.
+  - (* L132 *) destruct Hs as [Hn Hl]. destruct d as [|c [|b [|a t]]]; cbn [length] in Hl; try lia.
+    unfold step, goto; cbn [lab data cur rest outp bk1 bk2 bk3 nth_error].
+    destruct r as [|x r]; [done_shape|].
+    cbn [nest negb] in Hn. crush.
+    cmps; try solve [done_shape].
+    + cbn [erase skipn]. destruct t as [|e t']; [done_shape|].
+      cbn [nest negb] in *. crush. destruct t' as [|g t'']; cbn [nest negb] in *; crush. done_shape.
+  - (* L132up *) destruct Hs as (Hn & Hl & Hv). destruct d as [|c [|b [|a t]]]; cbn [length] in Hl; try lia.
+    unfold step, goto; cbn [lab data cur rest outp bk1 bk2 bk3 nth_error].
+    cbn [nest negb hd_lt] in *. crush.
+    cmps; done_shape.
+  - (* L312 *) destruct Hs as [Hn Hl]. destruct d as [|c [|b [|a [|e t]]]]; cbn [length] in Hl; try lia.
+    unfold step, goto; cbn [lab data cur rest outp bk1 bk2 bk3 nth_error].
+    destruct r as [|x r]; [done_shape|].
+    cbn [nest negb] in Hn. crush.
+    cmps; try solve [done_shape].
+  - (* L312down *) destruct Hs as (Hn & Hl & Hv). destruct d as [|c [|b [|a [|e t]]]]; cbn [length] in Hl; try lia.
+    unfold step, goto; cbn [lab data cur rest outp bk1 bk2 bk3 nth_error].
+    cbn [nest negb hd_gt] in *. crush.
+    cmps; done_shape.
+  - (* Lup *) destruct Hs as (Hn & Hv). destruct d as [|c [|b [|a t]]]; cbn [nest negb hd_lt] in *; crush.
+    + unfold step, goto; cbn. done_shape.
+    + unfold step, goto; cbn [lab data cur rest outp length Nat.eqb]. done_shape.
+  - (* Ldown *) destruct Hs as (Hn & Hv). destruct d as [|c [|b [|a [|e t]]]]; cbn [nest negb hd_gt] in *; crush.
+    + unfold step, goto; cbn. done_shape.
+    + unfold step, goto; cbn [lab data cur rest outp length]. done_shape.
+  - (* Lendup *) destruct d as [|c [|b t]]; cbn [nest negb] in *; crush.
+    unfold step, goto; cbn [lab data cur rest outp]. done_shape.
+  - (* Lenddown *) destruct d as [|c [|b [|a t]]]; cbn [nest negb] in *; crush.
+    + unfold step, goto; cbn. done_shape.
+    + unfold step, goto; cbn [lab data cur rest outp length Nat.ltb Nat.leb bk1 bk2 nth_error]. done_shape.
+  - (* Linf *) destruct d as [|x [|? ?]]; crush. unfold step; cbn. split; [apply Forall_rev; assumption|auto].
+Qed.
